@@ -274,7 +274,16 @@ class Fn:
 
     def stmt(self, n):
         k = n["kind"]
-        if k == "CompoundStmt": return self.seq([self.stmt(c) for c in kids(n)])
+        if k == "CompoundStmt":
+            ks = kids(n); out = []; i = 0
+            while i < len(ks):
+                c = ks[i]
+                if i + 1 < len(ks) and c["kind"] == "DeclStmt" and ks[i + 1]["kind"] == "WhileStmt":
+                    r = self.counted_while(c, ks[i + 1])
+                    if r is not None:
+                        out.append(r); i += 2; continue
+                out.append(self.stmt(c)); i += 1
+            return self.seq(out)
         if k == "NullStmt": return "SSkip"
         if k == "DeclStmt": return self.seq([self.decl(d) for d in kids(n)])
         if k == "ReturnStmt":
@@ -323,7 +332,8 @@ class Fn:
                        and kids(inc)[0]["referencedDecl"]["id"] == d["id"] and self.invariant(h):
                         t = ity(d)
                         # both sides reach the comparison through value-preserving conversions only
-                        ok = all(widening(a, b) for a, b in lcasts) and all(widening(a, b) for a, b in cast_steps(h))
+                        cl, ch = chain_preserves(l), chain_preserves(h)
+                        ok = (cl if cl is not None else all(widening(a, b) for a, b in lcasts)) and (ch if ch is not None else all(widening(a, b) for a, b in cast_steps(h)))
                         if ok:
                             lo = self.expr(kids(d)[0])
                             if ity(kids(d)[0]) != t: lo = "ECast %s (%s)" % (t, lo)
@@ -340,6 +350,34 @@ class Fn:
         b = self.stmt(body)
         s = self.expr_stmt(inc) if inc else "SSkip"
         return self.seq([i, "SWhile (%s)\n(%s)" % (c, self.seq([b, s]))])
+
+    def counted_while(self, decl, wh):
+        """`T i = lo; while (i < hi) { ...; ++i; }` with a loop-invariant bound, value-preserving conversions around the comparison, `++i` as the last
+        statement of the body and no other assignment to i: the counting loop (None if the shape does not match; nothing is declared in that case)"""
+        try:
+            ds = kids(decl)
+            if len(ds) != 1 or ds[0]["kind"] != "VarDecl" or is_ref(ds[0]) or len(kids(ds[0])) != 1: return None
+            d = ds[0]; cond, body = kids(wh)
+            if cond["kind"] != "BinaryOperator" or cond["opcode"] != "<" or body["kind"] != "CompoundStmt": return None
+            l, h = kids(cond); lcore, lcasts = peel(l)
+            if lcore["kind"] != "DeclRefExpr" or lcore["referencedDecl"]["id"] != d["id"] or not self.invariant(h): return None
+            bk = kids(body)
+            if not bk or bk[-1]["kind"] != "UnaryOperator" or bk[-1]["opcode"] != "++": return None
+            tgt = kids(bk[-1])[0]
+            if tgt["kind"] != "DeclRefExpr" or tgt["referencedDecl"]["id"] != d["id"]: return None
+            cl, ch = chain_preserves(l), chain_preserves(h)
+            if not ((cl if cl is not None else all(widening(a, b) for a, b in lcasts)) and (ch if ch is not None else all(widening(a, b) for a, b in cast_steps(h)))): return None
+            if uses_continue(body): return None
+        except (KeyError, Unsupported):
+            return None
+        t = ity(d); lo = self.expr(kids(d)[0])
+        if ity(kids(d)[0]) != t: lo = "ECast %s (%s)" % (t, lo)
+        hi = self.expr(h)
+        name = self.declare(d); self.const_local.add(d["id"])
+        before = set(self.assigned)
+        b = self.seq([self.stmt(c) for c in bk[:-1]])
+        if name in self.assigned - before or name in before: raise Unsupported("the loop counter is assigned in the body")
+        return "SForRange %s %s (%s) (%s)\n(%s)" % (coq_str(name), t, lo, hi, b)
 
     def expr_stmt(self, n): return self.stmt(n)
 
@@ -362,6 +400,10 @@ class Fn:
         b = self.seq([pre, self.stmt(body)])
         return "SForRange %s TU64 (EInt 0) (ELen %s)\n(%s)" % (coq_str(idx), coq_str(a), b)
 
+def uses_continue(n):
+    if n.get("kind") in ("ContinueStmt", "BreakStmt", "GotoStmt"): return True
+    return any(uses_continue(c) for c in kids(n))
+
 def strip_noop(n):
     while n["kind"] in ("ParenExpr",) or (n["kind"] == "ImplicitCastExpr" and n.get("castKind") == "NoOp"): n = kids(n)[0]
     return n
@@ -376,6 +418,23 @@ def peel(n):
             c = kids(n)[-1]; steps.append((ity(c), ity(n))); n = c
         elif k == "ImplicitCastExpr" and n.get("castKind") in ("LValueToRValue", "NoOp"): n = kids(n)[-1]
         else: return n, steps
+
+def chain_preserves(n):
+    """operand of a comparison: conversions stacked on a constant, a literal or a variable - is every conversion value-preserving for the values the
+    innermost operand can take?  (uint8_t -> int -> unsigned int is, although int -> unsigned int alone is not)"""
+    tys = []
+    while True:
+        k = n["kind"]
+        if k in ("ParenExpr", "ConstantExpr"): n = kids(n)[-1]
+        elif k in ("ImplicitCastExpr", "CXXStaticCastExpr", "CXXFunctionalCastExpr", "CStyleCastExpr") and n.get("castKind") == "IntegralCast":
+            tys.append(ity(n)); n = kids(n)[-1]
+        elif k == "ImplicitCastExpr" and n.get("castKind") in ("LValueToRValue", "NoOp"): n = kids(n)[-1]
+        else: break
+    if n["kind"] not in ("DeclRefExpr", "IntegerLiteral", "SubstNonTypeTemplateParmExpr", "CharacterLiteral"): return None
+    if n["kind"] in ("IntegerLiteral", "CharacterLiteral"):
+        v = int(n["value"]); return all(t_range(t)[0] <= v <= t_range(t)[1] for t in tys)
+    base = ity(n)
+    return all(widening(base, t) for t in tys)
 
 def cast_steps(n):
     out = []
